@@ -1129,7 +1129,10 @@ def skymask(invvar, andmask, ormask=None, ngrow=2):
         badmask = badmask | ((ormask & redmonster) != 0)
         # badmask = badmask | ((andmask & brightsky) != 0)
     if ngrow > 0:
-        width = 2*ngrow + 1
+        #
+        # A small NumPy integer type would overflow here.
+        #
+        width = 2*int(ngrow) + 1
         for k in range(nrows):
             badmask[k, :] = smooth(badmask[k, :]*width, width, True) > 0
     return invvar * (1 - badmask)
